@@ -230,12 +230,21 @@ class MetadataPdu(AbstractFileDirectiveBase):
             raw_packet=data, current_idx=current_idx
         )
         metadata_pdu.params = params
-        metadata_pdu._source_file_name_lv = CfdpLv.unpack(raw_bytes=data[current_idx:])
+        end_of_params_idx = metadata_pdu.packet_len
+        if metadata_pdu.pdu_file_directive.pdu_conf.crc_flag == CrcFlag.WITH_CRC:
+            end_of_params_idx -= 2
+        metadata_pdu._source_file_name_lv = CfdpLv.unpack(
+            raw_bytes=data[current_idx:end_of_params_idx]
+        )
         current_idx += metadata_pdu._source_file_name_lv.packet_len
-        metadata_pdu._dest_file_name_lv = CfdpLv.unpack(raw_bytes=data[current_idx:])
+        metadata_pdu._dest_file_name_lv = CfdpLv.unpack(
+            raw_bytes=data[current_idx:end_of_params_idx]
+        )
         current_idx += metadata_pdu._dest_file_name_lv.packet_len
-        if current_idx < len(data):
-            metadata_pdu._parse_options(raw_packet=data, start_idx=current_idx)
+        if current_idx < end_of_params_idx:
+            metadata_pdu._parse_options(
+                raw_packet=data[:end_of_params_idx], start_idx=current_idx
+            )
         return metadata_pdu
 
     def _parse_options(self, raw_packet: bytes, start_idx: int):
